@@ -3083,3 +3083,730 @@ func isInodeSize(info *types.Info, e ast.Expr) bool {
 	}
 	return strings.HasSuffix(namedTypeID(info.TypeOf(sel.X)), "fuseops.InodeAttributes")
 }
+
+// checkLeafBufferNotRetained (C01, C03, C15): leaf buffers belong to the free list and the LRU cache, which recycle
+// them once unpinned. The reader code may hold one in a local variable while it is pinned, hand it to the cache
+// (addToCache / lru Add) or back to the pool, and return it — nothing else keeps a reference: a buffer remembered in a
+// struct field, composite literal or atomic value is read again after the cache evicted and recycled it, and then
+// holds another leaf's bytes.
+func checkLeafBufferNotRetained(c *Ctx, rule string) {
+	p := c.P
+	n := 0
+	isLB := func(info *types.Info, e ast.Expr) bool {
+		t := info.TypeOf(e)
+		return t != nil && namedTypeID(t) == "pkg/cafs.LeafBuffer"
+	}
+	for _, f := range p.FuncsIn("pkg/cafs") {
+		if f.Decl.Body == nil || strings.Contains(p.Pos(f.Decl.Pos()), "freelists.go") {
+			continue
+		}
+		info := f.Info()
+		report := func(at ast.Node, what string) {
+			c.fail(rule, f.ID+":"+what, p.Pos(at.Pos()),
+				"a leaf buffer is kept outside the pool and the LRU cache ("+what+" in "+f.ID+"): once unpinned it can be evicted and recycled, and a later read through the kept reference returns the bytes of another leaf")
+		}
+		ast.Inspect(f.Decl.Body, func(nd ast.Node) bool {
+			switch x := nd.(type) {
+			case *ast.CompositeLit:
+				for _, el := range x.Elts {
+					v := el
+					if kv, ok := el.(*ast.KeyValueExpr); ok {
+						v = kv.Value
+					}
+					if isLB(info, v) {
+						n++
+						report(x, "stored in a composite literal")
+					}
+				}
+			case *ast.AssignStmt:
+				for i, l := range x.Lhs {
+					if i >= len(x.Rhs) || len(x.Lhs) != len(x.Rhs) {
+						break
+					}
+					if _, isIdent := ast.Unparen(l).(*ast.Ident); isIdent {
+						continue
+					}
+					if isLB(info, x.Rhs[i]) {
+						n++
+						report(x, "assigned to "+exprString(l))
+					}
+				}
+			case *ast.CallExpr:
+				id := calleeID(info, x)
+				if id == "" || strings.HasPrefix(id, "pkg/cafs.") || strings.HasPrefix(id, "field:") || strings.HasPrefix(id, "var:") || strings.HasPrefix(id, "builtin.") {
+					return true
+				}
+				if strings.HasSuffix(id, "golang-lru.Cache.Add") || strings.HasSuffix(id, "golang-lru.Cache.ContainsOrAdd") {
+					return true
+				}
+				for _, a := range x.Args {
+					if isLB(info, a) {
+						n++
+						report(x, "handed to "+shortCallee(id))
+					}
+				}
+			}
+			return true
+		})
+	}
+	if n == 0 {
+		c.ok(rule, "pkg/cafs.chunkReader.ReadAt:scan", "-", "no leaf buffer is stored in a field, literal or foreign container outside the pool and the LRU cache")
+	}
+}
+
+// checkKeyDerivationStateless (C02, C01): a key is a function of (content, leaf size, position, last-leaf flag) only.
+// The key derivation functions (pkg/cafs hasher.go, key.go) use no package-level variable that is ever assigned, or
+// that has methods called on it (maps, sync.Map, caches): a memo shared across calls makes a key depend on what the
+// process hashed before.
+func checkKeyDerivationStateless(c *Ctx, rule string) {
+	p := c.P
+	// package-level variables of the repository that are mutated somewhere: assigned in a function body, indexed on the
+	// left of an assignment, or the receiver of a method call
+	mutated := map[*types.Var]string{}
+	for _, f := range p.FuncsIn("pkg/cafs") {
+		if f.Decl.Body == nil {
+			continue
+		}
+		info := f.Info()
+		pkgVar := func(e ast.Expr) *types.Var {
+			for {
+				switch x := ast.Unparen(e).(type) {
+				case *ast.IndexExpr:
+					e = x.X
+					continue
+				case *ast.Ident:
+					if v, ok := info.Uses[x].(*types.Var); ok && v.Pkg() != nil && v.Parent() == v.Pkg().Scope() {
+						return v
+					}
+				}
+				return nil
+			}
+		}
+		ast.Inspect(f.Decl.Body, func(nd ast.Node) bool {
+			switch x := nd.(type) {
+			case *ast.AssignStmt:
+				for _, l := range x.Lhs {
+					if v := pkgVar(l); v != nil {
+						mutated[v] = "assigned in " + f.ID
+					}
+				}
+			case *ast.CallExpr:
+				if sel, ok := ast.Unparen(x.Fun).(*ast.SelectorExpr); ok {
+					if v := pkgVar(sel.X); v != nil && info.Selections[sel] != nil && !isErrorType(v.Type()) {
+						mutated[v] = "method " + sel.Sel.Name + " called in " + f.ID
+					}
+				}
+			}
+			return true
+		})
+	}
+	n := 0
+	for _, f := range p.FuncsIn("pkg/cafs") {
+		if f.Decl.Body == nil {
+			continue
+		}
+		pos := p.Pos(f.Decl.Pos())
+		if !strings.Contains(pos, "/hasher.go") && !strings.Contains(pos, "/key.go") {
+			continue
+		}
+		n++
+		info := f.Info()
+		bad := ""
+		ast.Inspect(f.Decl.Body, func(nd ast.Node) bool {
+			id, ok := nd.(*ast.Ident)
+			if !ok {
+				return true
+			}
+			if v, ok := info.Uses[id].(*types.Var); ok {
+				if why, isMut := mutated[v]; isMut {
+					bad = v.Name() + " (" + why + ")"
+				}
+			}
+			return true
+		})
+		c.check(bad == "", rule, f.ID, pos,
+			"uses no mutable package-level state",
+			f.ID+" uses the package-level variable "+bad+": keys are no longer a function of the content and its position alone — what the process hashed earlier changes the key of a later leaf")
+	}
+	if n < 8 {
+		c.fail(rule, "pkg/cafs:key-derivation", "-", "expected at least 8 key derivation functions in hasher.go/key.go, found "+itoa(n))
+	}
+}
+
+// checkModelOptionSettersVerbatim (C08, C20): the functional options of pkg/model descriptors (`func X(v T) Option { return
+// func(d *D) { d.F = v } }`) store a string argument unchanged. A setter that normalises its argument (trim, case fold…)
+// makes the name under which an object is written differ from the name other operations compute from the caller's raw
+// argument (DeleteLabel, path builders): two names alias one object, or an accepted name can never be found again.
+func checkModelOptionSettersVerbatim(c *Ctx, rule string) int {
+	p := c.P
+	n := 0
+	for _, f := range p.FuncsIn("pkg/model") {
+		if f.Decl.Body == nil || len(f.Decl.Body.List) != 1 {
+			continue
+		}
+		ret, ok := f.Decl.Body.List[0].(*ast.ReturnStmt)
+		if !ok || len(ret.Results) != 1 {
+			continue
+		}
+		lit, ok := ast.Unparen(ret.Results[0]).(*ast.FuncLit)
+		if !ok {
+			continue
+		}
+		info := f.Info()
+		sig := f.Obj.Type().(*types.Signature)
+		strParams := map[*types.Var]bool{}
+		for i := 0; i < sig.Params().Len(); i++ {
+			if b, ok := sig.Params().At(i).Type().Underlying().(*types.Basic); ok && b.Info()&types.IsString != 0 {
+				strParams[sig.Params().At(i)] = true
+			}
+		}
+		if len(strParams) == 0 {
+			continue
+		}
+		ast.Inspect(lit.Body, func(nd ast.Node) bool {
+			as, ok := nd.(*ast.AssignStmt)
+			if !ok {
+				return true
+			}
+			for i, l := range as.Lhs {
+				if i >= len(as.Rhs) {
+					break
+				}
+				if _, isSel := ast.Unparen(l).(*ast.SelectorExpr); !isSel {
+					continue
+				}
+				uses := false
+				for pv := range strParams {
+					if usesObj(info, as.Rhs[i], pv) {
+						uses = true
+					}
+				}
+				if !uses {
+					continue
+				}
+				n++
+				rhs := ast.Unparen(as.Rhs[i])
+				// the parameter itself, possibly through a type conversion
+				if call, isCall := rhs.(*ast.CallExpr); isCall && len(call.Args) == 1 {
+					if tv, ok := info.Types[call.Fun]; ok && tv.IsType() {
+						rhs = ast.Unparen(call.Args[0])
+					}
+				}
+				id, isID := rhs.(*ast.Ident)
+				okVerbatim := false
+				if isID {
+					if v, ok := info.Uses[id].(*types.Var); ok && strParams[v] {
+						okVerbatim = true
+					}
+				}
+				c.check(okVerbatim, rule, f.ID+":"+exprString(l), p.Pos(as.Pos()),
+					"the option stores its string argument unchanged",
+					f.ID+" stores `"+exprString(as.Rhs[i])+"` instead of its argument: the descriptor carries a name that differs from the one the caller passes to the other operations (delete, path builders) — two raw names alias one object, or an accepted name cannot be found again")
+			}
+			return true
+		})
+	}
+	return n
+}
+
+// checkUnmarshalIsPlain (C20): a descriptor reads back equal to what was written: the functions of pkg/model that decode
+// a descriptor with yaml.Unmarshal do not assign to the decoded value's fields afterwards (defaults filled in at read
+// time make the value differ from the stored one, and hide an incomplete descriptor from the validation that follows).
+func checkUnmarshalIsPlain(c *Ctx, rule string) int {
+	p := c.P
+	n := 0
+	for _, f := range p.FuncsIn("pkg/model") {
+		if f.Decl.Body == nil {
+			continue
+		}
+		info := f.Info()
+		var target *types.Var
+		var at token.Pos
+		ast.Inspect(f.Decl.Body, func(nd ast.Node) bool {
+			call, ok := nd.(*ast.CallExpr)
+			if !ok || !strings.HasSuffix(calleeID(info, call), "yaml.v2.Unmarshal") || len(call.Args) != 2 {
+				return true
+			}
+			arg := ast.Unparen(call.Args[1])
+			if u, ok := arg.(*ast.UnaryExpr); ok && u.Op == token.AND {
+				arg = ast.Unparen(u.X)
+			}
+			if id, ok := arg.(*ast.Ident); ok {
+				if v, ok := info.Uses[id].(*types.Var); ok {
+					target, at = v, call.End()
+				}
+			}
+			return true
+		})
+		if target == nil {
+			continue
+		}
+		n++
+		bad := ""
+		ast.Inspect(f.Decl.Body, func(nd ast.Node) bool {
+			as, ok := nd.(*ast.AssignStmt)
+			if !ok || as.Pos() < at {
+				return true
+			}
+			for _, l := range as.Lhs {
+				if sel, ok := ast.Unparen(l).(*ast.SelectorExpr); ok && isVar(info, sel.X, target) {
+					bad = exprString(l)
+				}
+			}
+			return true
+		})
+		c.check(bad == "", rule, f.ID, p.Pos(f.Decl.Pos()),
+			"the decoded descriptor is returned as decoded",
+			f.ID+" assigns `"+bad+"` after decoding: the descriptor read back differs from the one that was written (and an incomplete stored descriptor is no longer seen as incomplete)")
+	}
+	return n
+}
+
+// checkWALListEntriesSinglePage (C19): ListTokens back-dates the token it is given by twice the expiration to catch
+// late writers; it is therefore not a pagination primitive. ListEntries asks it once, with its own arguments: calling it
+// again from the continuation key lists the same tokens twice, and the collector refuses a token seen twice (panic).
+func checkWALListEntriesSinglePage(c *Ctx, rule string) {
+	p := c.P
+	f := p.Func("pkg/wal.WAL.ListEntries")
+	info := f.Info()
+	n, inLoop, okArgs := 0, false, false
+	ast.Inspect(f.Decl.Body, func(nd ast.Node) bool {
+		call, ok := nd.(*ast.CallExpr)
+		if !ok || calleeID(info, call) != "pkg/wal.WAL.ListTokens" {
+			return true
+		}
+		n++
+		for par := f.parentOf(call); par != nil; par = f.parentOf(par) {
+			switch par.(type) {
+			case *ast.ForStmt, *ast.RangeStmt:
+				inLoop = true
+			}
+		}
+		if len(call.Args) == 3 && describeExprAt(f, call.Args[0]) == "param#0" && describeExprAt(f, call.Args[1]) == "param#1" {
+			okArgs = strings.Contains(describeExprAt(f, call.Args[2]), "param#2")
+		}
+		return true
+	})
+	c.check(n == 1 && !inLoop && okArgs, rule, f.ID, p.Pos(f.Decl.Pos()),
+		"ListEntries lists its tokens with one ListTokens(ctx, fromToken, max) call",
+		"ListEntries calls ListTokens "+itoa(n)+" time(s) (in a loop: "+map[bool]string{true: "yes", false: "no"}[inLoop]+"): every call back-dates its start key by twice the expiration, so a continuation lists earlier tokens again and the collector panics on (or returns) a token twice")
+}
+
+// checkFreeINodeSingleStep (C18): freeing the highest inode lowers the high-water mark by exactly one; any other inode
+// goes to the free list. Lowering the mark further (over inodes that sit in the free list) without removing them from
+// the list hands those numbers out twice.
+func checkFreeINodeSingleStep(c *Ctx, rule string) {
+	p := c.P
+	f := p.Func("pkg/fuse.iNodeGenerator.freeINode")
+	info := f.Info()
+	bad := false
+	n := 0
+	ast.Inspect(f.Decl.Body, func(nd ast.Node) bool {
+		var target ast.Expr
+		switch x := nd.(type) {
+		case *ast.IncDecStmt:
+			if x.Tok == token.DEC {
+				target = x.X
+			}
+		case *ast.AssignStmt:
+			if len(x.Lhs) == 1 && (x.Tok == token.SUB_ASSIGN || x.Tok == token.ASSIGN) {
+				target = x.Lhs[0]
+			}
+		}
+		if target == nil {
+			return true
+		}
+		sel, ok := ast.Unparen(target).(*ast.SelectorExpr)
+		if !ok || describeExpr(f, sel.X, 0) != "recv" {
+			return true
+		}
+		if b, ok := info.TypeOf(sel).Underlying().(*types.Basic); !ok || b.Info()&types.IsInteger == 0 {
+			return true
+		}
+		n++
+		for par := f.parentOf(nd); par != nil; par = f.parentOf(par) {
+			switch par.(type) {
+			case *ast.ForStmt, *ast.RangeStmt:
+				bad = true
+			}
+		}
+		return true
+	})
+	c.check(n == 1 && !bad, rule, f.ID, p.Pos(f.Decl.Pos()),
+		"the high-water mark moves down by one step, once",
+		"freeINode lowers the high-water mark "+itoa(n)+" time(s) (inside a loop: "+map[bool]string{true: "yes", false: "no"}[bad]+"): a mark lowered over numbers that are still in the free list makes allocINode hand the same inode out twice (two names share one node and one backing file)")
+}
+
+// checkTruncateOwnWritableHandle (C18): SetInodeAttributes truncates the backing file through a handle it opened itself
+// for writing. The backingFiles cache holds whatever handle the last ReadFile / WriteFile left (read-only after a read):
+// truncating through it fails with EIO after a read, and the size stays untruncated.
+func checkTruncateOwnWritableHandle(c *Ctx, rule string) {
+	p := c.P
+	f := p.Func("pkg/fuse.fsMutable.SetInodeAttributes")
+	info := f.Info()
+	n := 0
+	ast.Inspect(f.Decl.Body, func(nd ast.Node) bool {
+		call, ok := nd.(*ast.CallExpr)
+		if !ok || !strings.HasSuffix(calleeID(info, call), "afero.File.Truncate") {
+			return true
+		}
+		n++
+		sel := ast.Unparen(call.Fun).(*ast.SelectorExpr)
+		d := describeExprAt(f, sel.X)
+		own := strings.HasPrefix(d, "recv.localCache.OpenFile(") && strings.HasSuffix(d, ")#0") && !strings.Contains(d, "|")
+		writable := false
+		if own {
+			// flags: second argument of the OpenFile call
+			ast.Inspect(f.Decl.Body, func(m ast.Node) bool {
+				oc, ok := m.(*ast.CallExpr)
+				if !ok || !strings.HasSuffix(calleeID(info, oc), "afero.Fs.OpenFile") || len(oc.Args) < 2 {
+					return true
+				}
+				if tv, ok := info.Types[oc.Args[1]]; ok && tv.Value != nil {
+					fl := parseInt(tv.Value.String())
+					if fl&(constInt(p, "os", "O_WRONLY")|constInt(p, "os", "O_RDWR")) != 0 {
+						writable = true
+					}
+				}
+				return true
+			})
+		}
+		c.check(own && writable, rule, callKey(f, call), p.Pos(call.Pos()),
+			"the truncated handle is opened in this call, for writing",
+			"SetInodeAttributes truncates through `"+d+"`: a handle it did not open itself for writing (the backing-file cache holds a read-only handle after a read) — truncation then fails with EIO and the visible and committed size stay as they were")
+		return true
+	})
+	if n == 0 {
+		c.fail(rule, f.ID, p.Pos(f.Decl.Pos()), "SetInodeAttributes no longer truncates the backing file when a size is given")
+	}
+}
+
+// checkBundleIDNeverReset (C12): a commit retried on the same Diamond re-uses the bundle ID of its failed attempt, so
+// that the no-overwrite writes of that bundle arbitrate between the attempts. checkBundleID may normalise the ID it
+// finds, never replace it: every setBundleID in it derives its argument from the current ID.
+func checkBundleIDNeverReset(c *Ctx, rule string) {
+	p := c.P
+	f := p.Func("pkg/core.Diamond.checkBundleID")
+	info := f.Info()
+	n := 0
+	bad := ""
+	ast.Inspect(f.Decl.Body, func(nd ast.Node) bool {
+		switch x := nd.(type) {
+		case *ast.CallExpr:
+			if calleeID(info, x) == "pkg/core.Diamond.setBundleID" || calleeID(info, x) == "pkg/core.Bundle.setBundleID" {
+				n++
+				if len(x.Args) != 1 || !strings.Contains(describeExprAt(f, x.Args[0]), "recv.BundleID") {
+					bad = exprString(x)
+				}
+			}
+		case *ast.AssignStmt:
+			for i, l := range x.Lhs {
+				if strings.HasSuffix(describeExpr(f, l, 0), ".BundleID") && i < len(x.Rhs) && !strings.Contains(describeExprAt(f, x.Rhs[i]), "recv.BundleID") {
+					bad = exprString(x.Lhs[i]) + " = " + exprString(x.Rhs[i])
+				}
+			}
+		}
+		return true
+	})
+	c.check(bad == "", rule, f.ID, p.Pos(f.Decl.Pos()),
+		"checkBundleID only normalises the bundle ID it finds ("+itoa(n)+" setter call)",
+		"checkBundleID replaces the bundle ID (`"+bad+"`): a commit retried on the same Diamond after a failed final write no longer re-uses the ID of its first attempt, uploads a second bundle and marks the diamond done")
+}
+
+// checkTryGoHandled (C13, C14): errgroup's TryGo does not run the function when the group is at its limit. A dispatcher
+// that ignores a false result drops the batch it was about to hand over; the purge then reports success with work undone.
+func checkTryGoHandled(c *Ctx, rule string, pkgs ...string) {
+	p := c.P
+	n := 0
+	for _, pk := range pkgs {
+		for _, f := range p.FuncsIn(pk) {
+			if f.Decl.Body == nil {
+				continue
+			}
+			info := f.Info()
+			ast.Inspect(f.Decl.Body, func(nd ast.Node) bool {
+				call, ok := nd.(*ast.CallExpr)
+				if !ok || !strings.HasSuffix(calleeID(info, call), "errgroup.Group.TryGo") || len(call.Args) != 1 {
+					return true
+				}
+				// only dispatches that carry per-iteration data: a function literal using a variable defined inside the
+				// enclosing loop (a received batch, a range element). A refused start of a worker that pulls its own work
+				// (e.g. the next index chunk, taken from the KV by whoever runs next) loses nothing.
+				lit, isLit := ast.Unparen(call.Args[0]).(*ast.FuncLit)
+				if !isLit {
+					return true
+				}
+				var loop ast.Node
+				for par := f.parentOf(call); par != nil; par = f.parentOf(par) {
+					switch par.(type) {
+					case *ast.ForStmt, *ast.RangeStmt:
+						if loop == nil {
+							loop = par
+						}
+					}
+				}
+				carries := false
+				if loop != nil {
+					ast.Inspect(lit.Body, func(m ast.Node) bool {
+						if id, ok := m.(*ast.Ident); ok {
+							if v, ok := info.Uses[id].(*types.Var); ok && !v.IsField() && encloses(loop, v.Pos()) && !encloses(lit, v.Pos()) {
+								carries = true
+							}
+						}
+						return true
+					})
+				}
+				if !carries {
+					return true
+				}
+				n++
+				handled := false
+				par := f.parentOf(call)
+				for {
+					if pe, ok := par.(*ast.ParenExpr); ok {
+						par = f.parentOf(pe)
+						continue
+					}
+					break
+				}
+				switch x := par.(type) {
+				case *ast.UnaryExpr: // if !g.TryGo(...) { fallback }
+					if x.Op == token.NOT {
+						if ifs, ok := f.parentOf(x).(*ast.IfStmt); ok && len(ifs.Body.List) > 0 {
+							handled = true
+						}
+					}
+				case *ast.ForStmt: // for !g.TryGo(...) {}
+					handled = true
+				case *ast.AssignStmt:
+					if id, ok := ast.Unparen(x.Lhs[0]).(*ast.Ident); ok {
+						v := info.ObjectOf(id)
+						ast.Inspect(f.Decl.Body, func(m ast.Node) bool {
+							ifs, ok := m.(*ast.IfStmt)
+							if !ok {
+								return true
+							}
+							if u, ok := ast.Unparen(ifs.Cond).(*ast.UnaryExpr); ok && u.Op == token.NOT {
+								if cid, ok := ast.Unparen(u.X).(*ast.Ident); ok && info.Uses[cid] == v && len(ifs.Body.List) > 0 {
+									handled = true
+								}
+							}
+							if cid, ok := ast.Unparen(ifs.Cond).(*ast.Ident); ok && info.Uses[cid] == v && ifs.Else != nil {
+								handled = true
+							}
+							return true
+						})
+					}
+				}
+				c.check(handled, rule, callKey(f, call), p.Pos(call.Pos()),
+					"a refused TryGo has a fallback",
+					"the result of TryGo is not acted upon in "+f.ID+": when the group is at its limit the function is not run and the batch it carried is dropped silently — the operation reports success with part of its work undone")
+				return true
+			})
+		}
+	}
+	if n == 0 {
+		c.ok(rule, "pkg/core.scanBlob:scan", "-", "no TryGo dispatch carrying per-iteration data in "+strings.Join(pkgs, ","))
+	}
+}
+
+// checkChunkDeleteBeforePut (C13, C14): an index chunk is written create-if-absent after removing whatever a previous
+// index (or a failed attempt) left under its name, inside the retried operand: every path to the Put of the chunk
+// passes the Delete of the same key. Deleting only after a failed Put loses the keys the failed attempt consumed
+// (they are marked uploaded as they are streamed).
+func checkChunkDeleteBeforePut(c *Ctx, rule string) {
+	p := c.P
+	f := p.Func("pkg/core.chunkUploader")
+	n := 0
+	for _, b := range p.BodiesOf(f) {
+		info := b.Info()
+		var put *ast.CallExpr
+		for _, call := range b.findCalls(callTo("pkg/storage.Store.Put"), false) {
+			put = call
+		}
+		if put == nil {
+			continue
+		}
+		n++
+		keyDesc := describeExprAt(f, put.Args[1])
+		const no, yes = 1, 2
+		bad := false
+		b.run(flowSpec{entry: no,
+			node: func(nd ast.Node, s uint64) uint64 {
+				for _, call := range callsIn(nd) {
+					id := calleeID(info, call)
+					if id == "pkg/storage.Store.Delete" && len(call.Args) == 2 && describeExprAt(f, call.Args[1]) == keyDesc {
+						s = yes
+					}
+					if call == put && s&no != 0 {
+						bad = true
+					}
+				}
+				return s
+			}})
+		c.check(!bad, rule, b.Key(), p.Pos(put.Pos()),
+			"the chunk's name is cleared before the create-if-absent Put, inside the retried operand",
+			"chunkUploader can reach the Put of an index chunk without having deleted what a previous index or attempt left under that name: the Put fails (or, on stores that stream before refusing, consumes and marks the keys first) and the retry uploads a chunk without them — delete-unused then removes referenced blobs")
+	}
+	if n == 0 {
+		c.fail(rule, f.ID, p.Pos(f.Decl.Pos()), "chunkUploader no longer writes the chunk with Store.Put")
+	}
+}
+
+// checkReadAtExits (C01, C17): ReadAt returns fewer bytes than asked only at the end of the object. Its exits are: the
+// offset lies beyond the last leaf (before the loop), a leaf could not be loaded, and the completion test (buffer full
+// or keys exhausted). An extra early return — e.g. a ranged read of one leaf — comes back short across a leaf boundary
+// without an error.
+func checkReadAtExits(c *Ctx, rule string) {
+	p := c.P
+	f := p.Func("pkg/cafs.chunkReader.ReadAt")
+	info := f.Info()
+	n := 0
+	ast.Inspect(f.Decl.Body, func(nd ast.Node) bool {
+		if _, isLit := nd.(*ast.FuncLit); isLit {
+			return false
+		}
+		r, ok := nd.(*ast.ReturnStmt)
+		if !ok {
+			return true
+		}
+		n++
+		ifs, _ := f.parentOf(f.parentOf(r)).(*ast.IfStmt)
+		okExit := false
+		why := "unconditional"
+		if ifs != nil && f.parentOf(r) == ast.Node(ifs.Body) {
+			why = exprString(ifs.Cond)
+			d := describeExprAt(f, ifs.Cond)
+			switch {
+			case strings.Contains(d, "call:builtin.len(recv.keys)"): // beyond the last leaf / keys exhausted
+				okExit = true
+			default:
+				// a failure test: some error variable compared != nil (possibly with more conjuncts)
+				for _, cj := range conjuncts(ifs.Cond) {
+					if be, ok := ast.Unparen(cj).(*ast.BinaryExpr); ok && be.Op == token.NEQ && isErrorType(info.TypeOf(be.X)) {
+						if id, ok := ast.Unparen(be.Y).(*ast.Ident); ok && id.Name == "nil" {
+							okExit = true
+						}
+					}
+				}
+			}
+		}
+		c.check(okExit, rule, f.ID+":return#"+itoa(n), p.Pos(r.Pos()),
+			"exit at end of object, on a load failure or on completion",
+			"ReadAt has an exit under `"+why+"` that is neither the end-of-object test, a load failure nor the completion test: a read served that way stops at a leaf boundary and comes back short without an error")
+		return true
+	})
+	if n < 3 {
+		c.fail(rule, f.ID+":returns", p.Pos(f.Decl.Pos()), "expected at least the 3 exits of ReadAt, found "+itoa(n))
+	}
+}
+
+// checkStagesForwardErrors (C07, pooled): the key stages between fetchKeys and the fetch workers (mergeKeys,
+// versionedKeys) re-emit one event per event received. The error of the received event must flow into the emitted one:
+// built from a fresh nil error, a failed key page disappears and the listing ends early while reporting success.
+func checkStagesForwardErrors(c *Ctx, rule string) {
+	p := c.P
+	n := 0
+	for _, fid := range []string{"pkg/core.mergeKeys", "pkg/core.versionedKeys"} {
+		f := p.FuncOpt(fid)
+		if f == nil || f.Decl.Body == nil {
+			continue
+		}
+		info := f.Info()
+		ast.Inspect(f.Decl.Body, func(nd ast.Node) bool {
+			rs, ok := nd.(*ast.RangeStmt)
+			if !ok {
+				return true
+			}
+			ch, ok := info.TypeOf(rs.X).Underlying().(*types.Chan)
+			if !ok || namedTypeID(ch.Elem()) != "pkg/core.keyBatchEvent" {
+				return true
+			}
+			kid, _ := rs.Key.(*ast.Ident)
+			if kid == nil {
+				return true
+			}
+			ev := info.Defs[kid]
+			// sends of a keyBatchEvent literal in this loop: its error field derives from the received event's error
+			ast.Inspect(rs.Body, func(m ast.Node) bool {
+				snd, ok := m.(*ast.SendStmt)
+				if !ok {
+					return true
+				}
+				cl, ok := ast.Unparen(snd.Value).(*ast.CompositeLit)
+				if !ok || namedTypeID(info.TypeOf(cl)) != "pkg/core.keyBatchEvent" {
+					return true
+				}
+				n++
+				forwarded := false
+				for _, el := range cl.Elts {
+					kv, ok := el.(*ast.KeyValueExpr)
+					if !ok || !isErrorType(info.TypeOf(kv.Value)) {
+						continue
+					}
+					// the value is the event's error, or a variable one of whose definitions is the event's error
+					var check func(e ast.Expr, depth int) bool
+					check = func(e ast.Expr, depth int) bool {
+						e = ast.Unparen(e)
+						if sel, ok := e.(*ast.SelectorExpr); ok {
+							if id, ok := ast.Unparen(sel.X).(*ast.Ident); ok && info.Uses[id] == ev && isErrorType(info.TypeOf(sel)) {
+								return true
+							}
+						}
+						if id, ok := e.(*ast.Ident); ok && depth < 3 {
+							if v, ok := info.Uses[id].(*types.Var); ok {
+								for _, d := range defsOfVarWithIndex(f, v) {
+									if d.rhs != nil && check(d.rhs, depth+1) {
+										return true
+									}
+								}
+							}
+						}
+						return false
+					}
+					if check(kv.Value, 0) {
+						forwarded = true
+					}
+				}
+				c.check(forwarded, rule, f.ID+":emit#"+itoa(n), p.Pos(snd.Pos()),
+					"the emitted event carries the received event's error",
+					f.ID+" emits its event without the error of the event it received: a key page that failed upstream is dropped, and the listing (or the commit that lists its splits) ends early with a nil error")
+				return true
+			})
+			return true
+		})
+	}
+	if n < 2 {
+		c.fail(rule, "pkg/core.mergeKeys:stages", "-", "expected the 2 re-emitting key stages (mergeKeys, versionedKeys), found "+itoa(n))
+	}
+}
+
+// checkMountLeafSizeAfterDescriptor (C17): the streamed mount reads leaves with the leaf size recorded in the bundle
+// descriptor, which the mount itself fetches (PublishMetadata): the cafs reader is built after that call on every path,
+// not from the descriptor the caller's Bundle value happens to hold (the default size for a bundle built from an ID).
+func checkMountLeafSizeAfterDescriptor(c *Ctx, rule string) {
+	p := c.P
+	f := p.Func("pkg/fuse.NewReadOnlyFS")
+	b := p.BodyOf(f)
+	info := f.Info()
+	const before, after = 1, 2
+	bad, n := false, 0
+	b.run(flowSpec{entry: before,
+		node: func(nd ast.Node, s uint64) uint64 {
+			for _, call := range callsIn(nd) {
+				switch calleeID(info, call) {
+				case "pkg/core.PublishMetadata", "pkg/core.Publish", "pkg/core.DownloadMetadata":
+					s = after
+				case "pkg/cafs.New":
+					n++
+					if s&before != 0 {
+						bad = true
+					}
+				}
+			}
+			return s
+		}})
+	c.check(n > 0 && !bad, rule, f.ID, p.Pos(f.Decl.Pos()),
+		"the cafs reader of a streamed mount is built after the descriptor was fetched",
+		"NewReadOnlyFS builds its cafs reader before (or without) fetching the bundle descriptor: the leaf size is the one the caller's Bundle value holds (the default), so every read of a bundle recorded with another leaf size fails its root-key check")
+}
